@@ -185,6 +185,10 @@ func normalizeBase(in string) string {
 	if u.Scheme != "" {
 		if path.IsAbs(u.Path) || u.Scheme != fileScheme {
 			// this is absolute or explicitly not a local file: we're good
+			if u.Scheme == fileScheme {
+				u.RawQuery = "" // any query component is irrelevant for a local file, as for plain paths below
+			}
+
 			return u.String()
 		}
 	}
